@@ -337,6 +337,7 @@ func c14Specs() map[string]*c14Spec {
 
 func c14Units(tier string) []*Unit {
 	var us []*Unit
+	us = append(us, c14FailingTemplateUnit(), c14NestedIncludeDeferUnit())
 	specs := c14Specs()
 	var names []string
 	for k := range specs {
@@ -357,4 +358,77 @@ func c14Units(tier string) []*Unit {
 		}
 	}
 	return us
+}
+
+// A deferred entry whose template cannot be evaluated leaves the other deferred entries of the
+// task unaffected: each still runs once, templated, with .EXIT_CODE, and a deferred
+// task call with a templated name still reaches its task.
+func c14FailingTemplateUnit() *Unit {
+	pr := func(task string, idx int, vp, extra string) string {
+		return fmt.Sprintf("printf '%%s\\n' 'P|%s|%d|%s|%s'", task, idx, vp, extra)
+	}
+	tf := "version: '3'\ntasks:\n  root:\n    vars: {WORDS: 'a b', KIND: x}\n    cmds:\n" +
+		"      - defer: " + pr("root", 0, "@", "{{.EXIT_CODE}}") + "\n" +
+		"      - defer: {task: 'clean-{{.KIND}}', vars: {VP: '@>root.c1'}}\n" +
+		"      - defer: " + pr("root", 2, "@", `{{index (splitList " " .WORDS) 5}}`) + "\n" +
+		"      - " + pr("root", 3, "@", "") + "\n" +
+		"      - " + pr("root", 4, "@", "") + "; exit 7\n" +
+		"  clean-x:\n    cmds:\n      - " + pr("clean-x", 0, "{{.VP}}", "") + "\n"
+	sc := &vlab.Scenario{Name: "defer-with-failing-template-next-to-others/cinf", Files: map[string]string{"Taskfile.yml": tf}, Calls: []vlab.CallSpec{{Task: "root"}}}
+	return &Unit{Name: sc.Name, Sc: sc, Bound: 0, Prune: false, Weight: 1, Check: func(x *vlab.Exec) []vlab.Violation {
+		out := generic("C14", x)
+		n := map[string]int{}
+		extra := map[string]string{}
+		var order []string
+		for _, e := range vlab.ParseTrace(x.Trace) {
+			if e.K == 'S' && e.Task != "" {
+				k := e.Task + "|" + e.Idx
+				n[k]++
+				extra[k] = e.Extra
+				order = append(order, k)
+			}
+		}
+		if n["root|0"] != 1 {
+			out = append(out, vlab.V("C14", "defer_missing", "defer_cmd:next_to_failing_template", fmt.Sprintf("the first-registered deferred command ran %d times (entries that ran: %v)", n["root|0"], order)))
+		} else if extra["root|0"] != "7" {
+			out = append(out, vlab.V("C14", "exit_code_var", "next_to_failing_template", fmt.Sprintf("the deferred command saw EXIT_CODE=%q, expected \"7\"", extra["root|0"])))
+		}
+		if n["clean-x|0"] != 1 {
+			out = append(out, vlab.V("C14", "defer_missing", "defer_task:next_to_failing_template", fmt.Sprintf("the deferred call of 'clean-{{.KIND}}' ran clean-x %d times (entries that ran: %v)", n["clean-x|0"], order)))
+		}
+		// (what the entry with the failing template itself does is outside the property: on the
+		// pinned tree it runs once with its raw text)
+		if x.Code != 201 {
+			out = append(out, vlab.V("C14", "outcome_changed", fmt.Sprintf("got%d:want201", x.Code), fmt.Sprintf("status %d (%s): the failing command's outcome must stand", x.Code, firstN(x.ErrStr, 100))))
+		}
+		return out
+	}}
+}
+
+// A deferred task call declared in a Taskfile that is included at depth 2 names a task of its
+// own Taskfile.
+func c14NestedIncludeDeferUnit() *Unit {
+	pr := func(task string, idx int, vp string) string {
+		return fmt.Sprintf("printf '%%s\\n' 'P|%s|%d|%s|'", task, idx, vp)
+	}
+	files := map[string]string{
+		"Taskfile.yml": "version: '3'\nincludes:\n  mid: ./mid.yml\ntasks:\n  root:\n    cmds:\n      - task: mid:inner:job\n",
+		"mid.yml":      "version: '3'\nincludes:\n  inner: ./inner.yml\ntasks:\n  cleanup:\n    cmds:\n      - " + pr("mid:cleanup", 0, "=") + "\n",
+		"inner.yml": "version: '3'\ntasks:\n  job:\n    cmds:\n      - defer: {task: cleanup}\n      - " + pr("mid:inner:job", 1, "=") + "\n" +
+			"  cleanup:\n    cmds:\n      - " + pr("mid:inner:cleanup", 0, "=") + "\n",
+	}
+	sc := &vlab.Scenario{Name: "deferred-task-call-in-nested-include/cinf", Files: files, Calls: []vlab.CallSpec{{Task: "root"}}}
+	return &Unit{Name: sc.Name, Sc: sc, Bound: 0, Prune: false, Weight: 1, Check: func(x *vlab.Exec) []vlab.Violation {
+		out := generic("C14", x)
+		var order []string
+		for _, e := range vlab.ParseTrace(x.Trace) {
+			if e.K == 'S' && e.Task != "" {
+				order = append(order, e.Task)
+			}
+		}
+		if strings.Join(order, ",") != "mid:inner:job,mid:inner:cleanup" {
+			out = append(out, vlab.V("C14", "defer_missing", "defer_task:nested_include", fmt.Sprintf("ran %v, expected the job and then the cleanup task of its own Taskfile (mid:inner:cleanup) (status %d %s)", order, x.Code, firstN(x.ErrStr, 100))))
+		}
+		return out
+	}}
 }
